@@ -13,6 +13,25 @@ import asynq
 from asynq import asynq as A, scheduler
 from asynq.batching import DebugBatchItem
 depth = int(sys.argv[1]); variant = sys.argv[2]
+import os
+_opts = json.loads(os.environ.get("DC_OPTS", "{}"))
+if _opts:
+    # debug options on, with a scripted clock that advances 10 ms per reading (a time based dump every ~100 steps)
+    import asynq.scheduler as _sm
+    from asynq import _debug
+    class _Clock(object):
+        now = 1.7e9
+        def time(self):
+            self.now += 0.01
+            return self.now
+    _sm.time = _Clock()
+    _c = _Clock()
+    _sm.utime = lambda: int(_c.time() * 1000000)
+    for k, v in _opts.items():
+        setattr(_debug.options, k, v)
+    _sm.reset()          # a scheduler created under the scripted clock
+    devnull = open(os.devnull, "w")
+    os.dup2(devnull.fileno(), 1)
 class Bottom(Exception):
     pass
 starts = {}
@@ -63,27 +82,31 @@ json.dump(out, sys.stderr)
 '''
 
 
-def run(build_dir, depths, timeout=900):
-    summary, bad = [], []
-    for d in depths:
-        for variant in ("plain", "list", "batch", "fail"):
-            try:
-                r = subprocess.run([PY, "-c", SCRIPT, str(d), variant], capture_output=True, text=True,
-                                   env=pyenv(build_dir), timeout=timeout, preexec_fn=limit_resources(12))
-                line = r.stderr.strip().splitlines()[-1] if r.stderr.strip() else "{}"
-                try:
-                    o = json.loads(line)
-                except ValueError:
-                    o = {"depth": d, "variant": variant, "error": "rc=%d %s" % (r.returncode, r.stderr[-300:])}
-            except subprocess.TimeoutExpired:
-                o = {"depth": d, "variant": variant, "error": "timeout (hang)"}
-            ok = o.get("ok_value") and o.get("all_started_once") and o.get("all_resumed_once") and \
-                o.get("tasks_left") == 0 and o.get("active") == "None" and o.get("max_python_frames_at_bottom", 10**9) < 60
-            o["ok"] = bool(ok)
-            summary.append(o)
-            if not ok:
-                bad.append(o)
-    return {"summary": summary, "bad": bad}
+def _one(build_dir, d, variant, timeout, options):
+    try:
+        r = subprocess.run([PY, "-c", SCRIPT, str(d), variant], capture_output=True, text=True,
+                           env=pyenv(build_dir, {"DC_OPTS": json.dumps(options or {})}), timeout=timeout,
+                           preexec_fn=limit_resources(12))
+        line = r.stderr.strip().splitlines()[-1] if r.stderr.strip() else "{}"
+        try:
+            o = json.loads(line)
+        except ValueError:
+            o = {"depth": d, "variant": variant, "error": "rc=%d %s" % (r.returncode, r.stderr[-300:])}
+    except subprocess.TimeoutExpired:
+        o = {"depth": d, "variant": variant, "error": "timeout (hang)"}
+    ok = o.get("ok_value") and o.get("all_started_once") and o.get("all_resumed_once") and \
+        o.get("tasks_left") == 0 and o.get("active") == "None" and o.get("max_python_frames_at_bottom", 10**9) < 60
+    o["ok"] = bool(ok)
+    o["options"] = options or {}
+    return o
+
+
+def run(build_dir, depths, timeout=900, options=None, variants=("plain", "list", "batch", "fail")):
+    from concurrent.futures import ThreadPoolExecutor
+    cases = [(d, v) for d in depths for v in variants]
+    with ThreadPoolExecutor(max_workers=8) as ex:
+        summary = list(ex.map(lambda c: _one(build_dir, c[0], c[1], timeout, options), cases))
+    return {"summary": summary, "bad": [o for o in summary if not o["ok"]]}
 
 
 if __name__ == "__main__":
